@@ -647,19 +647,6 @@ end MosnVerif.Model.Redact
 namespace MosnVerif.Model.Redact
 open MosnVerif.Model MosnVerif.Model.GoTypes
 
-/-- the argument of an update is a value of the Go type the API takes -/
-def Op.wtArg : Op → Bool
-  | .setMosn cfg => wt G (.named "MOSNConfig") cfg
-  | .setListener l => wt G (.named "Listener") l
-  | .setCluster c => wt G (.named "Cluster") c
-  | .removeCluster _ => true
-  | .setHosts _ hs => wt G (.slice (.named "Host")) hs
-  | .setRouter r => wt G (.named "RouterConfiguration") r
-  | .setExtend _ _ => true
-  | .setCMTLS tls => wt G (.named "TLSConfig") tls
-  | .persist => true
-  | .reset => true
-
 structure SWt (s : State) : Prop where
   mosn : wt G (.named "MOSNConfig") s.mosn = true
   lis : wtM G (.named "Listener") s.listeners = true
